@@ -29,6 +29,11 @@ type Color int32
 type Mode string
 type Level uint8
 
+// Shade and Unit are enums registered with aliases: several names for one value, at the start, in the middle and at the
+// end of the alphabet (every registered name must be accepted and arrive as the shared value).
+type Shade int32
+type Unit string
+
 // TU is the catalogue's encoding.TextUnmarshaler: accepts "tu:"+x and stores x.
 type TU struct{ S string }
 
@@ -85,6 +90,20 @@ type Opts struct {
 	H Inner      `graphql:"h,optional"`
 }
 
+// Palette: aliased enums as plain, optional and pointer members, in lists and in a nested input object.
+type Palette struct {
+	Main   Shade    `graphql:"main"`
+	Others []Shade  `graphql:"others,optional"`
+	U      *Unit    `graphql:"u"`
+	Us     []*Unit  `graphql:"us,optional"`
+	In     *Swatch  `graphql:"in"`
+	Ins    []Swatch `graphql:"ins,optional"`
+}
+type Swatch struct {
+	S Shade `graphql:"s,optional"`
+	U Unit  `graphql:"u"`
+}
+
 // Tree is a self-referencing input object (the builder's typeCache closes the cycle).
 type Tree struct {
 	V    int32  `graphql:"v"`
@@ -112,6 +131,12 @@ var enums = []*enumInfo{
 		mp: map[string]Mode{"FAST": "f", "SLOW": "s"}, zero: Mode("")},
 	{rt: reflect.TypeOf(Level(0)), names: []string{"HIGH", "LOW"}, vals: []interface{}{Level(255), Level(0)},
 		mp: map[string]Level{"LOW": 0, "HIGH": 255}, zero: Level(0)},
+	{rt: reflect.TypeOf(Shade(0)), names: []string{"AAA_DARK", "BLACK", "GRAY", "GREY", "SLATE", "WHITE", "ZINC_WHITE"},
+		vals: []interface{}{Shade(0), Shade(0), Shade(1), Shade(1), Shade(1), Shade(2), Shade(2)},
+		mp:   map[string]Shade{"AAA_DARK": 0, "BLACK": 0, "GRAY": 1, "GREY": 1, "SLATE": 1, "WHITE": 2, "ZINC_WHITE": 2}, zero: Shade(0)},
+	{rt: reflect.TypeOf(Unit("")), names: []string{"K", "KB", "KIB", "M", "MB"},
+		vals: []interface{}{Unit("k"), Unit("k"), Unit("k"), Unit("m"), Unit("m")},
+		mp:   map[string]Unit{"K": "k", "KB": "k", "KIB": "k", "M": "m", "MB": "m"}, zero: Unit("")},
 }
 
 func enumOf(rt reflect.Type) *enumInfo {
@@ -135,19 +160,20 @@ var scalarTypes = map[string]reflect.Type{
 	"MyFloat32": reflect.TypeOf(MyFloat32(0)), "MyFloat64": reflect.TypeOf(MyFloat64(0)), "MyString": reflect.TypeOf(MyString("")),
 	"Color": reflect.TypeOf(Color(0)), "Mode": reflect.TypeOf(Mode("")), "Level": reflect.TypeOf(Level(0)),
 	"TU": reflect.TypeOf(TU{}), "Blob": reflect.TypeOf(Blob{}),
+	"Shade": reflect.TypeOf(Shade(0)), "Unit": reflect.TypeOf(Unit("")),
 }
 
 var scalarNames = []string{"bool", "int8", "int16", "int32", "int64", "int", "uint8", "uint16", "uint32", "uint64", "uint",
 	"float32", "float64", "string", "bytes", "time", "MyBool", "MyInt8", "MyInt32", "MyInt64", "MyUint16", "MyUint64",
-	"MyFloat32", "MyFloat64", "MyString", "Color", "Mode", "Level", "TU", "Blob"}
+	"MyFloat32", "MyFloat64", "MyString", "Color", "Mode", "Level", "TU", "Blob", "Shade", "Unit", "Shade", "Unit"}
 
 var namedStructs = map[string]reflect.Type{
 	"Inner": reflect.TypeOf(Inner{}), "Pair": reflect.TypeOf(Pair{}), "Deep": reflect.TypeOf(Deep{}),
 	"Misc": reflect.TypeOf(Misc{}), "Opts": reflect.TypeOf(Opts{}), "Tree": reflect.TypeOf(Tree{}),
 	"Hidden": reflect.TypeOf(Hidden{}), "Dashed": reflect.TypeOf(Dashed{}), "DashedDup": reflect.TypeOf(DashedDup{}),
-	"Neighbours": reflect.TypeOf(Neighbours{}),
+	"Neighbours": reflect.TypeOf(Neighbours{}), "Palette": reflect.TypeOf(Palette{}), "Swatch": reflect.TypeOf(Swatch{}),
 }
-var namedStructNames = []string{"Inner", "Pair", "Deep", "Misc", "Opts", "Tree", "Hidden", "Dashed", "DashedDup", "Neighbours"}
+var namedStructNames = []string{"Inner", "Pair", "Deep", "Misc", "Opts", "Tree", "Hidden", "Dashed", "DashedDup", "Neighbours", "Palette", "Swatch"}
 
 // ---- type descriptions (serialisable: replay files rebuild the reflect.Type from them) ----
 
